@@ -159,11 +159,11 @@ fn glyf_fault(rng: &mut Rng, data: &mut Vec<u8>, ext: &[(u32, usize, usize)]) ->
         // loca entry: non-monotone / odd / past the end
         let k = rng.below(n);
         return Some(if long {
-            let v = *rng.pick(&[0u32, 1, 3, gl as u32, gl as u32 + 1, gl as u32 - 1, 0xFFFF_FFFF, 0x8000_0000]);
+            let v = *rng.pick(&[0u32, 1, 3, gl as u32, (gl as u32).wrapping_add(1), (gl as u32).wrapping_sub(1), 0xFFFF_FFFF, 0x8000_0000]);
             data[lo + 4 * k..lo + 4 * k + 4].copy_from_slice(&v.to_be_bytes());
             Applied { desc: format!("loca[{}]={:#x}", k, v) }
         } else {
-            let v = *rng.pick(&[0u16, 1, (gl / 2) as u16, (gl / 2) as u16 + 1, 0xFFFF, 0x8000]);
+            let v = *rng.pick(&[0u16, 1, (gl / 2) as u16, ((gl / 2) as u16).wrapping_add(1), 0xFFFF, 0x8000]);
             put16(data, lo + 2 * k, v);
             Applied { desc: format!("loca[{}]={:#x}", k, v) }
         });
